@@ -13,8 +13,6 @@ Rust code is an explicit `Stop.panic` of the model (list in the header of Model/
 `run_no_panic` is THE theorem of the property: for every file system and every main path the outcome is not
 `Result.panic`.  The other non-`done` outcomes are named exclusions, not panics of the code:
   * `Result.fuel`  — more than `maxDepth` nested includes (cyclic includes: known finding K2);
-  * `Result.huge`  — a single output region reached 2^32 bytes (4 GiB of output in a region based at 0; from
-                     there on `curr_addr` wraps and the code itself can reach `assert_eq!(n, 0)` — `Seg.Small`, C13);
   * `Result.loop`  — the round counter of a task loop ran out (model artefact);
   * `Result.noMain`— `fs main = none` (the binary reports an I/O error before creating a `Context`).
 
@@ -51,31 +49,14 @@ theorem runWith_no_panic (enc : Encoder) (henc : EncLen enc) (fs : Bytes → Opt
           have := pending_close st.seg
           rw [hcs] at this
           exact fun _ x => this ▸ x
-        have hsm : small s' = true := by
-          -- after `close_segment` the region is either unchanged or gone
-          have : s' = st.seg ∨ s'.active = none := by
-            have e := hcs
-            unfold Seg.closeSegment at e
-            split at e
-            · cases e; exact .inl rfl
-            · split at e
-              · split at e
-                · cases e; exact .inr rfl
-                · cases e; exact absurd rfl hc.1
-              · cases e; exact .inl rfl
-          rcases this with e | e
-          · rw [e]; exact g.sm
-          · simp [small, e]
-        have g' := (good_setSeg g hc.2.1 hsm hp).1
+        have g' := (good_setSeg g hc.2.1 hp).1
         have fz := finalize_safe henc g'
         split
         · simp
         · rename_i hf; exact absurd hf fz
         · simp
         · simp
-        · simp
     · rename_i ha; exact absurd ha af.1
-    · simp
     · simp
     · simp
 
@@ -125,6 +106,17 @@ theorem run_outcome (fs : Bytes → Option Bytes) (main : Bytes) (o : Outcome) (
             cases hf'
         all_goals cases h
     all_goals cases h
+
+/-- the earlier, weaker form (kept because props/C06.json lists it): a corollary of `run_outcome` -/
+theorem run_outcome_partial (fs : Bytes → Option Bytes) (main : Bytes) (o : Outcome) (h : run fs main = .done o) :
+    (o.success = true → o.diags = [] ∧ o.closeErr = none) ∧
+    (o.success = false → o.closeErr ≠ none ∨ o.finalize = false) := by
+  have ro := run_outcome fs main o h
+  refine ⟨fun hs => ⟨(ro.1 hs).1, ?_⟩, fun hs => ?_⟩
+  · simp only [Outcome.success, Bool.and_eq_true, Option.isNone_iff_eq_none] at hs
+    exact hs.1
+  · simp only [Outcome.success, Bool.and_eq_false_iff, Option.isNone_eq_false_iff, Option.isSome_iff_ne_none] at hs
+    exact hs
 
 /-- C06.diag_has_pos  Every recorded diagnostic names a file and carries a line ≥ 1 and a column ≥ 1.
 Hypothesis (necessary): the empty path is not a file — an `.include ""` next to a file without directory part
